@@ -18,6 +18,9 @@ pub enum Policy {
 	Random(usize, u64),
 	/// two pieces: reads never cross offset p
 	Split(usize),
+	/// whole reads, but every k-th call returns `ErrorKind::Interrupted` without consuming
+	/// anything (a signal arrived): callers must retry, the result must be unaffected
+	Interrupt(usize),
 }
 
 impl Policy {
@@ -27,6 +30,7 @@ impl Policy {
 			Policy::Fixed(k) => format!("fixed{}", k),
 			Policy::Random(k, _) => format!("random1..{}", k),
 			Policy::Split(_) => "split".into(),
+			Policy::Interrupt(k) => format!("interrupt-every-{}", k),
 		}
 	}
 }
@@ -41,6 +45,7 @@ pub struct Stats {
 	pub max_pos: AtomicUsize,
 	/// EOF was polled more than EOF_POLL_LIMIT times: a non-consuming loop
 	pub spun: AtomicBool,
+	pub interrupts: AtomicUsize,
 }
 
 pub const EOF_POLL_LIMIT: usize = 4096;
@@ -73,6 +78,8 @@ pub struct Src {
 	rng: Rng,
 	/// the k-th read call (0-based) fails with this kind
 	fault: Option<(usize, io::ErrorKind)>,
+	/// every seek fails (an unseekable stream behind a Seek facade)
+	pub fail_seek: bool,
 	pub stats: Arc<Stats>,
 }
 
@@ -82,7 +89,7 @@ impl Src {
 			Policy::Random(_, s) => *s,
 			_ => 0,
 		};
-		Src { data, pos: 0, policy, rng: Rng::new(seed), fault: None, stats: Arc::new(Stats::default()) }
+		Src { data, pos: 0, policy, rng: Rng::new(seed), fault: None, fail_seek: false, stats: Arc::new(Stats::default()) }
 	}
 	pub fn of(data: &[u8]) -> Self {
 		Src::new(Arc::new(data.to_vec()), Policy::Whole)
@@ -94,6 +101,10 @@ impl Src {
 		d.extend_from_slice(&self.data);
 		self.data = Arc::new(d);
 		self.pos = n;
+		self
+	}
+	pub fn with_failing_seek(mut self) -> Self {
+		self.fail_seek = true;
 		self
 	}
 	pub fn with_fault(mut self, call: usize, kind: io::ErrorKind) -> Self {
@@ -114,6 +125,12 @@ impl Read for Src {
 				return Err(io::Error::new(kind, "injected fault"));
 			}
 		}
+		if let Policy::Interrupt(k) = &self.policy {
+			if call % *k == *k - 1 {
+				self.stats.interrupts.fetch_add(1, Relaxed);
+				return Err(io::Error::new(io::ErrorKind::Interrupted, "injected EINTR"));
+			}
+		}
 		if buf.is_empty() {
 			return Ok(0);
 		}
@@ -129,7 +146,7 @@ impl Read for Src {
 		}
 		let mut n = buf.len().min(left);
 		match &self.policy {
-			Policy::Whole => {}
+			Policy::Whole | Policy::Interrupt(_) => {}
 			Policy::Fixed(k) => n = n.min(*k),
 			Policy::Random(k, _) => n = n.min(1 + self.rng.below(*k)),
 			Policy::Split(p) => {
@@ -149,6 +166,10 @@ impl Read for Src {
 impl Seek for Src {
 	fn seek(&mut self, pos: SeekFrom) -> io::Result<u64> {
 		self.stats.seeks.fetch_add(1, Relaxed);
+		if self.fail_seek {
+			self.stats.fault_delivered.store(true, Relaxed);
+			return Err(io::Error::new(io::ErrorKind::Other, "injected seek failure"));
+		}
 		let new: i128 = match pos {
 			SeekFrom::Start(p) => p as i128,
 			SeekFrom::Current(d) => self.pos as i128 + d as i128,
@@ -172,20 +193,25 @@ pub struct Sink {
 	pub fail_after: Option<usize>,
 	pub calls: usize,
 	pub failed: bool,
+	/// every k-th write call returns Interrupted (0 = never)
+	pub interrupt_every: usize,
 }
 
 impl Sink {
 	pub fn short(max_per_call: usize) -> Sink {
-		Sink { buf: vec![], max_per_call: max_per_call.max(1), fail_after: None, calls: 0, failed: false }
+		Sink { buf: vec![], max_per_call: max_per_call.max(1), fail_after: None, calls: 0, failed: false, interrupt_every: 0 }
 	}
 	pub fn failing(after: usize) -> Sink {
-		Sink { buf: vec![], max_per_call: usize::MAX, fail_after: Some(after), calls: 0, failed: false }
+		Sink { buf: vec![], max_per_call: usize::MAX, fail_after: Some(after), calls: 0, failed: false, interrupt_every: 0 }
 	}
 }
 
 impl io::Write for Sink {
 	fn write(&mut self, data: &[u8]) -> io::Result<usize> {
 		self.calls += 1;
+		if self.interrupt_every > 0 && self.calls % self.interrupt_every == 0 {
+			return Err(io::Error::new(io::ErrorKind::Interrupted, "injected EINTR"));
+		}
 		if data.is_empty() {
 			return Ok(0);
 		}
